@@ -33,40 +33,86 @@ type Solver struct {
 	log      io.Writer
 	declared map[*Term]bool
 	scratch  bool
+	kind     string
+	timeout  int
+	lines    chan string
+	Restarts int
 }
 
 func NewSolver(kind string, timeoutMs int) (*Solver, error) {
+	s := &Solver{name: kind, kind: kind, timeout: timeoutMs, declared: map[*Term]bool{}}
+	if err := s.start(); err != nil {
+		return nil, err
+	}
+	return s, nil
+}
+
+func (s *Solver) start() error {
 	var cmd *exec.Cmd
-	switch kind {
+	switch s.kind {
 	case "z3", "z3-new":
-		cmd = exec.Command(kind, "-in", "-smt2")
+		cmd = exec.Command(s.kind, "-in", "-smt2")
 	case "cvc5":
-		cmd = exec.Command("cvc5", "--incremental", "--lang", "smt2", "--produce-models", fmt.Sprintf("--tlimit-per=%d", timeoutMs))
+		cmd = exec.Command("cvc5", "--incremental", "--lang", "smt2", "--produce-models", fmt.Sprintf("--tlimit-per=%d", s.timeout))
 	default:
-		return nil, fmt.Errorf("unknown solver %s", kind)
+		return fmt.Errorf("unknown solver %s", s.kind)
 	}
 	in, err := cmd.StdinPipe()
 	if err != nil {
-		return nil, err
+		return err
 	}
 	out, err := cmd.StdoutPipe()
 	if err != nil {
-		return nil, err
+		return err
 	}
 	cmd.Stderr = nil
 	if err := cmd.Start(); err != nil {
-		return nil, err
+		return err
 	}
-	s := &Solver{name: kind, cmd: cmd, in: in, out: bufio.NewReaderSize(out, 1<<16), declared: map[*Term]bool{}}
-	if kind == "cvc5" {
+	s.cmd, s.in = cmd, in
+	s.out = bufio.NewReaderSize(out, 1<<16)
+	s.declared = map[*Term]bool{}
+	s.asserted = nil
+	s.scratch = false
+	lines := make(chan string, 64)
+	s.lines = lines
+	rd := s.out
+	go func() {
+		for {
+			line, err := rd.ReadString('\n')
+			if err != nil {
+				close(lines)
+				return
+			}
+			line = strings.TrimSpace(line)
+			if line != "" {
+				lines <- line
+			}
+		}
+	}()
+	if s.kind == "cvc5" {
 		s.send("(set-logic ALL)")
 		s.send("(set-option :global-declarations true)")
 	} else {
 		s.send("(set-option :global-declarations true)")
-		s.send(fmt.Sprintf("(set-option :timeout %d)", timeoutMs))
+		s.send(fmt.Sprintf("(set-option :timeout %d)", s.timeout))
 		s.send("(set-option :produce-models true)")
 	}
-	return s, nil
+	return nil
+}
+
+// restart kills a hung solver and starts a fresh one (all definitions are re-sent lazily).
+func (s *Solver) restart() {
+	s.Restarts++
+	if s.cmd != nil {
+		s.in.Close()
+		s.cmd.Process.Kill()
+		s.cmd.Wait()
+		s.cmd = nil
+	}
+	if err := s.start(); err != nil {
+		s.Errors = append(s.Errors, "solver restart: "+err.Error())
+	}
 }
 
 func (s *Solver) Close() {
@@ -124,17 +170,17 @@ func (s *Solver) syncPC(pc []*Term) {
 }
 
 func (s *Solver) readLine() string {
-	for {
-		line, err := s.out.ReadString('\n')
-		if err != nil {
-			s.Errors = append(s.Errors, "solver pipe: "+err.Error())
+	select {
+	case line, ok := <-s.lines:
+		if !ok {
+			s.Errors = append(s.Errors, "solver pipe closed")
 			return "(error pipe)"
 		}
-		line = strings.TrimSpace(line)
-		if line == "" {
-			continue
-		}
 		return line
+	case <-time.After(time.Duration(s.timeout+10000) * time.Millisecond):
+		// the solver ignored its own time limit: kill it, answer unknown
+		s.restart()
+		return "timeout-killed"
 	}
 }
 
